@@ -210,14 +210,23 @@ def generate_files(scratch, gens):
     for g in gens:
         bodies = []
         out = []
+        lost = False
         for part in g["parts"]:
             text = open(f"{REPO}/src/{part['file']}").read()
-            body = extract_block(text, part["start"], f"src/{part['file']}")
-            for sub in part.get("substitute", []):
-                body, k = re.subn(sub["pattern"], sub["with"], body)
-                if k != 1:
-                    raise Undecided(f"lost anchor: /{sub['pattern']}/ occurs {k} times in the body extracted from src/{part['file']}")
-                notes.append(f"in that body, the expression /{sub['pattern']}/ was replaced by `{sub['with']}` ({sub.get('why', '')})")
+            try:
+                body = extract_block(text, part["start"], f"src/{part['file']}")
+                for sub in part.get("substitute", []):
+                    body, k = re.subn(sub["pattern"], sub["with"], body)
+                    if k != 1:
+                        raise Undecided(f"lost anchor: /{sub['pattern']}/ occurs {k} times in the body extracted from src/{part['file']}")
+                    notes.append(f"in that body, the expression /{sub['pattern']}/ was replaced by `{sub['with']}` ({sub.get('why', '')})")
+            except Undecided as e:
+                # the obligations that need this fragment become undecided (their harness hits this
+                # panic, which the driver classifies as a tool limit); the others still run
+                msg = str(e).replace('"', "'").replace("{", "(").replace("}", ")").replace("\\", "")
+                body = f'\n    panic!("VERIF-LOST-ANCHOR: {msg}");\n    #[allow(unreachable_code)]\n'
+                notes.append(str(e))
+                lost = True
             bodies.append(re.sub(r"\s+", " ", body).strip())
             out.append(f"// extracted verbatim from src/{part['file']} (loop body after /{part['start']}/)\n"
                        + g["wrap"].replace("@FN@", part["fn"]).replace("@BODY@", body))
@@ -275,7 +284,7 @@ CHECK_RE = re.compile(
     r"^Check (\d+): (\S+)\n\t - Status: (\w+)\n\t - Description: \"(.*?)\"\n\t - Location: (.*?)$",
     re.M | re.S)
 
-INFRA_DESCR = ("unwinding assertion", "VERIF-MODEL-BOUND", "is not currently supported by Kani",
+INFRA_DESCR = ("unwinding assertion", "VERIF-MODEL-BOUND", "VERIF-LOST-ANCHOR", "is not currently supported by Kani",
                "unsupported", "recursion unwinding")
 
 
